@@ -73,13 +73,12 @@ theorem so3_Exp_zero_nodeOK (dJ : DJ ℝ) (eps : ℝ) (heps : 0 < eps) (lt : Lis
 
 /-- `se3` `Exp` node at rotation part zero (any translation part) -/
 theorem se3_Exp_zero_nodeOK (dJ : DJ ℝ) (eps : ℝ) (heps : 0 < eps) (lt : List Ty) (env : ℝ → List (DVec ℝ)) (tan : List (DVec ℝ))
-    (p : Prog) (hp : NodeOK dJ eps lt env tan p) (hzt : v3 (eval eps (env 0) p) = ⟨0, 0, 0⟩)
-    (hz : v3 (eval eps (env 0) p) 3 = ⟨0, 0, 0⟩) :
+    (p : Prog) (hp : NodeOK dJ eps lt env tan p) (hz : v3 (eval eps (env 0) p) 3 = ⟨0, 0, 0⟩) :
     NodeOK dJ eps lt env tan (.un .Exp .SE3 p) := by
   refine exp_nodeOK_of dJ eps lt env tan .SE3 p hp ?_ ?_ trivial
   · intro d hd hL
     obtain ⟨d0, d1, d2, d3, d4, d5, rfl⟩ := len6 _ hd
-    exact se3Exp_tangent_zero eps heps _ d0 d1 d2 d3 d4 d5 hL hzt hz
+    exact se3Exp_tangent_zerorot eps heps _ d0 d1 d2 d3 d4 d5 hL hz
   · show (qt (expF .SE3 eps (eval eps (env 0) p)) 3).normSq = 1
     simp only [expF, se3Exp, tose3, hz, so3Exp_zero eps heps]
     simp [qt, SE3.toList, Vec3.toList, Quat.toList, Quat.normSq]
